@@ -1,2 +1,2 @@
-/- C09 — theorems are being added; see harness/props/c09.py THEOREMS for the audited list. -/
-import DsdVerif.Model.Complex
+/- C09 — splitting yields exactly the connected components: theorems are in Props/C09Split.lean. -/
+import DsdVerif.Props.C09Split
